@@ -323,14 +323,21 @@ def strip_ansi(s):
     return re.sub(r"\x1b\[[0-9;]*m", "", s)
 
 
+class ErgTimeout(Exception):
+    pass
+
+
+ERG_TIMEOUT = [120]
+
+
 def run_erg(ctx, erg, mode, text, tmp, i):
     p = os.path.join(tmp, "c%d_%s.er" % (i, mode))
     with open(p, "w") as f:
         f.write(text)
     try:
-        r = sh([erg, mode, p], env=ctx.erg_env(), timeout=120)
+        r = sh([erg, mode, p], env=ctx.erg_env(), timeout=ERG_TIMEOUT[0])
     except subprocess.TimeoutExpired:
-        return -1, "timeout"
+        raise ErgTimeout()
     return r.returncode, strip_ansi(r.stdout + r.stderr)
 
 
@@ -340,7 +347,14 @@ def crashed(rc, out):
 
 def e2e_one(ctx, erg, tmp, i, c, pyv):
     """pyv: python value of the expression per Spec.v (extracted): [1,[k,x]] | [2,e] | [3] | [4].
-    returns dict(kind=..., detail=...) with kind in ok-folded | ok-not-folded | crash | wrong | skipped"""
+    returns dict(kind=..., detail=...) with kind in ok-folded | ok-not-folded | crash | wrong | skipped | timeout"""
+    try:
+        return e2e_one_(ctx, erg, tmp, i, c, pyv)
+    except ErgTimeout:
+        return {"kind": "timeout", "program": "N = %s" % e2e_source(c)}
+
+
+def e2e_one_(ctx, erg, tmp, i, c, pyv):
     src = e2e_source(c)
     if src is None:
         return {"kind": "skipped"}
@@ -410,7 +424,16 @@ def run_e2e(ctx, model, n):
     try:
         with ThreadPoolExecutor(max_workers=12) as ex:
             results = list(ex.map(lambda t: e2e_one(ctx, erg, tmp, t[0], t[1][0], t[1][1]), enumerate(zip(cases, pyvals))))
+        # a process that got no answer within the limit while 12 ran in parallel on a loaded machine is tried again
+        # alone with a long limit; only then is it a hang
+        ERG_TIMEOUT[0] = 900
+        for j, r in enumerate(results):
+            if r["kind"] == "timeout":
+                ctx.count("e2e retried after timeout")
+                r2 = e2e_one(ctx, erg, tmp, j, cases[j], pyvals[j])
+                results[j] = r2 if r2["kind"] != "timeout" else {"kind": "crash", "program": r2["program"], "why": "no answer within 900 s (hang)", "output": "timeout"}
     finally:
+        ERG_TIMEOUT[0] = 120
         shutil.rmtree(tmp, ignore_errors=True)
     bad = []
     for c, pv, r in zip(cases, pyvals, results):
